@@ -257,7 +257,7 @@ def run_shard(spec, ctx):
     import random
 
     rnd = random.Random(ctx.seed)
-    for _ in range(ctx.pick(1, 8)):
+    for _ in range(ctx.pick(1, 4)):
         body(make_case(rnd), ctx.col)
 
 
